@@ -432,7 +432,7 @@ impl Check for C05 {
     fn run_shard(&self, ctx: &Ctx, rec: &mut Rec) {
         let (total, fb) = match ctx.tier {
             Tier::Quick => (4000, 1500),
-            Tier::Thorough => (60000, 20000),
+            Tier::Thorough => (180000, 60000),
         };
         prop_loop(ctx, rec, "gen", strategy(), ctx.share(total), judge);
         prop_loop(ctx, rec, "fallback", fb_strategy(), ctx.share(fb), judge_fb);
